@@ -45,7 +45,7 @@ def main() -> int:
             cases = cases[: args.limit]
     boundscheck = getattr(mod, "BOUNDSCHECK", False)
     timeout = getattr(mod, "TIMEOUT", {}).get(args.tier, 1500.0)
-    results = run_cases(prop, cases, timeout=timeout, boundscheck=boundscheck)
+    results = run_cases(prop, cases, timeout=timeout, boundscheck=boundscheck, min_cases_per_batch=getattr(mod, "MIN_CASES_PER_PROCESS", 1))
     extra = []
     if hasattr(mod, "post") and not args.replay:
         extra = mod.post(cases, results, args.tier) or []
